@@ -111,6 +111,7 @@ int main(int argc, char** argv) {
             else if (c == "X") cmd_exp(t);
             else if (c == "F") cmd_file(t);
             else if (c == "B") cmd_blk(t);
+            else if (c == "G") cmd_render(t);
             else if (!cmd_more(t)) OUT("? unknown command %s", c.c_str());
         }
         catch (std::exception& e) { OUT("throw %s", classify(e)); }
